@@ -41,6 +41,17 @@ Definition fdivmul (x old new : N) : N :=
 
 Inductive ckind := SlowStart | Recovery (start : N) (req : bool) | CongAvoid.
 
+(* HybridSlowStart's delay sampling state (hystart++ is off: the environment switch is unset), and
+   the controller's time_of_last_sent_packet; durations in nanoseconds, times in microseconds *)
+Record hstate := mkH {
+  tls : option N;     (* time_of_last_sent_packet *)
+  sc : N;             (* sample_count *)
+  lmin : option N;    (* last_min_rtt *)
+  cmin : option N;    (* cur_min_rtt *)
+  rend : option N     (* rtt_round_end_time *)
+}.
+Definition hinit : hstate := {| tls := None; sc := 0; lmin := None; cmin := None; rend := None |}.
+
 Record cstate := mkC {
   mds : N;            (* max_datagram_size (also cubic.max_datagram_size) *)
   mds0 : N;           (* slow_start.max_datagram_size: set at construction, never updated *)
@@ -49,7 +60,8 @@ Record cstate := mkC {
   bif_hi : N;         (* bytes_in_flight_hi *)
   kind : ckind;       (* state (the congestion-avoidance timing is not modelled) *)
   uu : bool;          (* under_utilized *)
-  thr : option N      (* slow_start.threshold, FX units; None = f32::MAX *)
+  thr : option N;     (* slow_start.threshold, FX units; None = f32::MAX *)
+  hs : hstate
 }.
 
 (* Cubic::minimum_window: 2.0 * max_datagram_size as f32 (exact: below 2^24) *)
@@ -64,7 +76,7 @@ Definition initial_window (m : N) : N :=
 
 Definition cinit (m : N) : cstate :=
   {| mds := m; mds0 := m; cwnd := fx_of_int (initial_window m); bif := 0; bif_hi := 0;
-     kind := SlowStart; uu := true; thr := None |}.
+     kind := SlowStart; uu := true; thr := None; hs := hinit |}.
 
 Definition wnd (s : cstate) : N := to_u32 (cwnd s).
 Definition is_ss (s : cstate) : bool := match kind s with SlowStart => true | _ => false end.
@@ -81,24 +93,30 @@ Definition mult_decrease (c m : N) : N :=
   N.max (round24 (c * beta_cubic_man) / 2 ^ beta_cubic_sh) (min_window m).
 
 Inductive op :=
-  | Sent (bytes app : N)                 (* app: 0 = None, 1 = Some(false), 2 = Some(true) *)
+  | Sent (bytes app now : N)             (* app: 0 = None, 1 = Some(false), 2 = Some(true) *)
   | Ack (bytes sent_time now : N)
   | Lost (bytes : N) (persistent : bool) (now : N)
   | Ecn (now : N)
   | Mtu (m : N)
   | Discard (bytes : N)
+  | RttUpd (sent_time now rtt : N)       (* on_rtt_update; rtt = latest_rtt in nanoseconds *)
   | Nop.
 
 Definition set_bif (s : cstate) (b : N) : cstate :=
-  {| mds := mds s; mds0 := mds0 s; cwnd := cwnd s; bif := b; bif_hi := bif_hi s; kind := kind s; uu := uu s; thr := thr s |}.
+  {| mds := mds s; mds0 := mds0 s; cwnd := cwnd s; bif := b; bif_hi := bif_hi s; kind := kind s; uu := uu s; thr := thr s; hs := hs s |}.
 Definition set_kind (s : cstate) (k : ckind) : cstate :=
-  {| mds := mds s; mds0 := mds0 s; cwnd := cwnd s; bif := bif s; bif_hi := bif_hi s; kind := k; uu := uu s; thr := thr s |}.
+  {| mds := mds s; mds0 := mds0 s; cwnd := cwnd s; bif := bif s; bif_hi := bif_hi s; kind := k; uu := uu s; thr := thr s; hs := hs s |}.
 Definition set_cwnd (s : cstate) (c : N) : cstate :=
-  {| mds := mds s; mds0 := mds0 s; cwnd := c; bif := bif s; bif_hi := bif_hi s; kind := kind s; uu := uu s; thr := thr s |}.
+  {| mds := mds s; mds0 := mds0 s; cwnd := c; bif := bif s; bif_hi := bif_hi s; kind := kind s; uu := uu s; thr := thr s; hs := hs s |}.
 Definition set_uu (s : cstate) (u : bool) : cstate :=
-  {| mds := mds s; mds0 := mds0 s; cwnd := cwnd s; bif := bif s; bif_hi := bif_hi s; kind := kind s; uu := u; thr := thr s |}.
+  {| mds := mds s; mds0 := mds0 s; cwnd := cwnd s; bif := bif s; bif_hi := bif_hi s; kind := kind s; uu := u; thr := thr s; hs := hs s |}.
 Definition set_hi (s : cstate) (h : N) : cstate :=
-  {| mds := mds s; mds0 := mds0 s; cwnd := cwnd s; bif := bif s; bif_hi := h; kind := kind s; uu := uu s; thr := thr s |}.
+  {| mds := mds s; mds0 := mds0 s; cwnd := cwnd s; bif := bif s; bif_hi := h; kind := kind s; uu := uu s; thr := thr s; hs := hs s |}.
+
+Definition set_hs (s : cstate) (h : hstate) : cstate :=
+  {| mds := mds s; mds0 := mds0 s; cwnd := cwnd s; bif := bif s; bif_hi := bif_hi s; kind := kind s; uu := uu s; thr := thr s; hs := h |}.
+Definition set_thr (s : cstate) (t : option N) : cstate :=
+  {| mds := mds s; mds0 := mds0 s; cwnd := cwnd s; bif := bif s; bif_hi := bif_hi s; kind := kind s; uu := uu s; thr := t; hs := hs s |}.
 
 Definition clear_req (s : cstate) : cstate :=
   match kind s with Recovery t true => set_kind s (Recovery t false) | _ => s end.
@@ -112,7 +130,7 @@ Definition congestion_event (s : cstate) (now : N) : cstate :=
       let c' := mult_decrease (cwnd s) (mds s) in
       let t' := N.max (match thr s with None => c' | Some t => N.min t c' end) (low_ssthresh (mds0 s)) in
       {| mds := mds s; mds0 := mds0 s; cwnd := c'; bif := bif s; bif_hi := 0;
-         kind := Recovery now true; uu := uu s; thr := Some t' |}
+         kind := Recovery now true; uu := uu s; thr := Some t'; hs := hs s |}
   end.
 
 (* the cap on the window in on_ack, after the recovery-exit check *)
@@ -159,10 +177,40 @@ Definition on_ack (s : cstate) (bytes sent_time a : N) : cstate :=
   | CongAvoid => set_cwnd s2 (N.min a (ca_clamp s2 bytes))
   end.
 
+(* HybridSlowStart::on_rtt_update followed by the slow-start exit check of
+   CubicCongestionController::on_rtt_update; [last] = time_of_last_sent_packet *)
+Definition hss_delay_min : N := 4000000.    (* MIN_DELAY_THRESHOLD 4 ms *)
+Definition hss_delay_max : N := 16000000.   (* MAX_DELAY_THRESHOLD 16 ms *)
+Definition on_rtt_update (s : cstate) (sent_time now rtt last : N) : cstate :=
+  let above := match thr s with Some t => t <=? cwnd s | None => false end in
+  let s1 :=
+    if above then s else
+    let h := hs s in
+    let over := match rend h with None => true | Some e => e <=? sent_time end in
+    let h1 := if over then {| tls := tls h; sc := 0; lmin := cmin h; cmin := None; rend := Some last |} else h in
+    let h2 := if sc h1 <? hss_n_sampling
+              then {| tls := tls h1; sc := sc h1; lmin := lmin h1;
+                      cmin := Some (match cmin h1 with Some c => N.min rtt c | None => rtt end); rend := rend h1 |}
+              else h1 in
+    let h3 := {| tls := tls h2; sc := sc h2 + 1; lmin := lmin h2; cmin := cmin h2; rend := rend h2 |} in
+    let s2 := set_hs s h3 in
+    match lmin h3, cmin h3 with
+    | Some l, Some c =>
+        if sc h3 =? hss_n_sampling then
+          let d := N.max (N.min (l / hss_threshold_dividend) hss_delay_max) hss_delay_min in
+          if (l + d <=? c) && (low_ssthresh (mds0 s) <=? cwnd s) then set_thr s2 (Some (cwnd s)) else s2
+        else s2
+    | _, _ => s2
+    end in
+  match kind s1, thr s1 with
+  | SlowStart, Some t => if t <=? cwnd s1 then set_kind s1 CongAvoid else s1
+  | _, _ => s1
+  end.
+
 (* None = the implementation panics (checked counter / expect / debug_assert) *)
 Definition step (s : cstate) (o : op) (a : N) : option cstate :=
   match o with
-  | Sent bytes app =>
+  | Sent bytes app now =>
       if bytes =? 0 then Some s else
       if u32_max <? bif s + bytes then None else
       let s1 := set_bif s (bif s + bytes) in
@@ -171,7 +219,9 @@ Definition step (s : cstate) (o : op) (a : N) : option cstate :=
                | 1 => false
                | _ => under_utilized s1
                end in
-      Some (clear_req (set_uu s1 u))
+      let h := hs s in
+      Some (set_hs (clear_req (set_uu s1 u))
+                   {| tls := Some now; sc := sc h; lmin := lmin h; cmin := cmin h; rend := rend h |})
   | Ack bytes sent_time now =>
       if bif s <? bytes then None else Some (on_ack s bytes sent_time a)
   | Lost bytes persistent now =>
@@ -183,9 +233,14 @@ Definition step (s : cstate) (o : op) (a : N) : option cstate :=
   | Ecn now => Some (congestion_event s now)
   | Mtu m =>
       Some {| mds := m; mds0 := mds0 s; cwnd := fx_of_int (N.max (to_u32 (fdivmul (cwnd s) (mds s) m)) (initial_window m));
-              bif := bif s; bif_hi := bif_hi s; kind := kind s; uu := uu s; thr := thr s |}
+              bif := bif s; bif_hi := bif_hi s; kind := kind s; uu := uu s; thr := thr s; hs := hs s |}
   | Discard bytes =>
       if bif s <? bytes then None else Some (clear_req (set_bif s (bif s - bytes)))
+  | RttUpd sent_time now rtt =>
+      match tls (hs s) with
+      | None => None                      (* expect("At least one packet must be sent to update RTT") *)
+      | Some last => Some (on_rtt_update s sent_time now rtt last)
+      end
   | Nop => Some s
   end.
 
@@ -197,10 +252,12 @@ Definition step (s : cstate) (o : op) (a : N) : option cstate :=
      4 Ecn     a = ce count
      5 Mtu     a = new max datagram size
      6 Discard a = bytes
-   rows  = 7 integers after construction and after every op:
+     7 RttUpd  b = how long before now the packet was sent, c = latest rtt sample (microseconds)
+   rows  = 9 integers after construction and after every op:
            congestion_window(), bytes_in_flight(), window in FX units (-1 unknown), state kind
            (0 slow start, 1 recovery idle, 2 recovery requiring transmission, 3 avoidance),
-           under_utilized, requires_fast_retransmission(), is_congestion_limited()          *)
+           under_utilized, requires_fast_retransmission(), is_congestion_limited(),
+           slow start threshold in FX units (-1 = f32::MAX), hybrid slow start sample_count *)
 
 Fixpoint decode (now : N) (l : list Z) : list op :=
   match l with
@@ -208,12 +265,13 @@ Fixpoint decode (now : N) (l : list Z) : list op :=
       let now' := now + zN dt in
       let a := zN a in let b := zN b in
       (match c with
-       | 1%Z => Sent a b
+       | 1%Z => Sent a b now'
        | 2%Z => Ack a (now' - b) now'
        | 3%Z => Lost a (negb (b =? 0)) now'
        | 4%Z => Ecn now'
        | 5%Z => Mtu a
        | 6%Z => Discard a
+       | 7%Z => RttUpd (now' - b) now' (1000 * N.max (zN d) 1)
        | _ => Nop
        end) :: decode now' t
   | _ => []
@@ -224,12 +282,13 @@ Definition kind_code (k : ckind) : Z :=
 
 Definition row (s : cstate) : list Z :=
   [Nz (wnd s); Nz (bif s); Nz (cwnd s); kind_code (kind s); bz (uu s);
-   bz (match kind s with Recovery _ true => true | _ => false end); bz (congestion_limited s)].
+   bz (match kind s with Recovery _ true => true | _ => false end); bz (congestion_limited s);
+   (match thr s with Some t => Nz t | None => (-1)%Z end); Nz (sc (hs s))].
 
 (* the answer for a step is the window (FX units) of the implementation's row after that step *)
 Definition next_answer (rows : list Z) : N * list Z :=
   match rows with
-  | _ :: _ :: a :: _ :: _ :: _ :: _ :: t => (zN a, t)
+  | _ :: _ :: a :: _ :: _ :: _ :: _ :: _ :: _ :: t => (zN a, t)
   | _ => (0, [])
   end.
 
@@ -270,6 +329,7 @@ Record jstate := mkJ {
   jb : N;             (* bytes outstanding according to the operations *)
   jshrunk : option N; (* time of the last loss/ECN event that shrank the window, until a packet
                          sent after it is acknowledged (or persistent congestion) *)
+  jsent : bool;       (* a packet has been sent (on_rtt_update `expect`s it) *)
   japp : bool         (* the last send was flagged application-limited and left more than
                          MAX_BURST packets of room with less than half the window in use *)
 }.
@@ -281,47 +341,48 @@ Definition floor_u32 (m : N) : N := cubic_min_window_mult_man * m / 2 ^ cubic_mi
    nothing is demanded after an invalid operation. *)
 Definition jvalid (j : jstate) (o : op) : bool :=
   match o with
-  | Sent bytes _ => (bytes =? 0) || (jb j + bytes <=? u32_max)
+  | Sent bytes _ _ => (bytes =? 0) || (jb j + bytes <=? u32_max)
   | Ack bytes _ _ => bytes <=? jb j
   | Lost bytes _ _ => negb (bytes =? 0) && (bytes <=? jb j)
   | Discard bytes => bytes <=? jb j
+  | RttUpd _ _ _ => jsent j
   | _ => true
   end.
 
 Definition jstep (j : jstate) (o : op) (w b : N) : bool * jstate :=
   let common m := (floor_u32 m <=? w) && (w <? u32_max) in
   match o with
-  | Sent bytes app =>
+  | Sent bytes app _ =>
       let b' := jb j + bytes in
       let app' := if bytes =? 0 then japp j
                   else (app =? 2) && (jm j * max_burst_multiplier <? w - b') && (b' <? w / 2) in
       (common (jm j) && (b =? b'),
-       {| jm := jm j; jw := w; jb := b'; jshrunk := jshrunk j; japp := app' |})
+       {| jm := jm j; jw := w; jb := b'; jshrunk := jshrunk j; jsent := jsent j || negb (bytes =? 0); japp := app' |})
   | Ack bytes sent_time now =>
       let b' := jb j - bytes in
       let ok := common (jm j) && (b =? b') && (if japp j then w <=? jw j else true) in
       let sh := match jshrunk j with Some t => if t <? sent_time then None else Some t | None => None end in
-      (ok, {| jm := jm j; jw := w; jb := b'; jshrunk := sh; japp := japp j |})
+      (ok, {| jm := jm j; jw := w; jb := b'; jshrunk := sh; jsent := jsent j; japp := japp j |})
   | Lost bytes persistent now =>
       let b' := jb j - bytes in
       let ok := common (jm j) && (b =? b') && (w <=? jw j)
                 && (if persistent then w =? floor_u32 (jm j)
                     else match jshrunk j with Some _ => w =? jw j | None => true end) in
       let sh := if persistent then None else if w <? jw j then Some now else jshrunk j in
-      (ok, {| jm := jm j; jw := w; jb := b'; jshrunk := sh; japp := japp j |})
+      (ok, {| jm := jm j; jw := w; jb := b'; jshrunk := sh; jsent := jsent j; japp := japp j |})
   | Ecn now =>
       let ok := common (jm j) && (b =? jb j) && (w <=? jw j)
                 && match jshrunk j with Some _ => w =? jw j | None => true end in
       let sh := if w <? jw j then Some now else jshrunk j in
-      (ok, {| jm := jm j; jw := w; jb := jb j; jshrunk := sh; japp := japp j |})
+      (ok, {| jm := jm j; jw := w; jb := jb j; jshrunk := sh; jsent := jsent j; japp := japp j |})
   | Mtu m =>
-      (common m && (b =? jb j), {| jm := m; jw := w; jb := jb j; jshrunk := jshrunk j; japp := japp j |})
+      (common m && (b =? jb j), {| jm := m; jw := w; jb := jb j; jshrunk := jshrunk j; jsent := jsent j; japp := japp j |})
   | Discard bytes =>
       let b' := jb j - bytes in
       (common (jm j) && (b =? b'),
-       {| jm := jm j; jw := w; jb := b'; jshrunk := jshrunk j; japp := japp j |})
+       {| jm := jm j; jw := w; jb := b'; jshrunk := jshrunk j; jsent := jsent j; japp := japp j |})
   | Nop => (common (jm j) && (b =? jb j),
-            {| jm := jm j; jw := w; jb := jb j; jshrunk := jshrunk j; japp := japp j |})
+            {| jm := jm j; jw := w; jb := jb j; jshrunk := jshrunk j; jsent := jsent j; japp := japp j |})
   end.
 
 Fixpoint judge_from (j : jstate) (ops : list op) (rows : list Z) : bool :=
@@ -330,7 +391,7 @@ Fixpoint judge_from (j : jstate) (ops : list op) (rows : list Z) : bool :=
   | o :: t =>
       if negb (jvalid j o) then true else
       match rows with
-      | w :: b :: _ :: _ :: _ :: _ :: _ :: rows' =>
+      | w :: b :: _ :: _ :: _ :: _ :: _ :: _ :: _ :: rows' =>
           if (w <? 0)%Z || (b <? 0)%Z then false else
           let '(ok, j') := jstep j o (zN w) (zN b) in
           ok && judge_from j' t rows'
@@ -343,11 +404,11 @@ Definition judge (case rows : list Z) : bool :=
   | [] => true
   | m :: t =>
       match rows with
-      | w :: b :: _ :: _ :: _ :: _ :: _ :: rows' =>
+      | w :: b :: _ :: _ :: _ :: _ :: _ :: _ :: _ :: rows' =>
           let m := zN m in
           (* a new controller: at least the minimum window, nothing in flight *)
           (0 <=? w)%Z && (floor_u32 m <=? zN w) && (zN w <? u32_max) && (b =? 0)%Z
-          && judge_from {| jm := m; jw := zN w; jb := 0; jshrunk := None; japp := false |} (decode 0 t) rows'
+          && judge_from {| jm := m; jw := zN w; jb := 0; jshrunk := None; jsent := jsent j; japp := false |} (decode 0 t) rows'
       | _ => false
       end
   end.
